@@ -28,6 +28,8 @@ struct TreeRec
     long total_events = 0;
     std::chrono::steady_clock::time_point t0;
     long wall_ms = 20000;      // a search that does not get to the recorded part (or out of it) in this time is stopped
+    int root_open = 0;         // activations of search() at ply 0 that have not returned (internal deepening nests them)
+    bool evict = false;        // tt = "evict": every table entry is lost when the recorded iteration starts (replacement can evict any entry at any time)
 } TR;
 
 void sink_t(const char* id, int64_t a, int64_t b)
@@ -42,7 +44,11 @@ void sink_t(const char* id, int64_t a, int64_t b)
     if (!strcmp(id, "iter_start"))
     {
         TR.iter = a;
-        if (a >= TR.from_iter && !TR.stop_sent) TR.recording = true;
+        if (a >= TR.from_iter && !TR.stop_sent)
+        {
+            if (TR.evict && !TR.recording) the_uci().ttable.clear();
+            TR.recording = true;
+        }
         return;
     }
     if (!TR.recording) return;
@@ -58,12 +64,13 @@ void sink_t(const char* id, int64_t a, int64_t b)
         fprintf(TR.o, "{\"e\":\"n\",\"q\":%d,\"p\":%ld,\"d\":%ld,\"a\":%ld,\"b\":%ld,\"fen\":%s}\n", TR.pend_q, (long)TR.pend_ply, (long)TR.pend_depth,
                 (long)a, (long)b, jstr(TR.target->_position.fen()).c_str());
         TR.lines++;
+        if (TR.pend_ply == 0 && !TR.pend_q) TR.root_open++;
     }
     else if (!strcmp(id, "exit") || !strcmp(id, "qexit"))
     {
         fprintf(TR.o, "{\"e\":\"x\",\"q\":%d,\"p\":%ld,\"v\":%ld,\"st\":%d}\n", id[0] == 'q', (long)a, (long)b, TR.target->stop_search.load() ? 1 : 0);
         TR.lines++;
-        if (a == 0 && id[0] != 'q' && TR.stop_sent) TR.recording = false;   // the root has been left after the stop
+        if (a == 0 && id[0] != 'q' && --TR.root_open <= 0 && TR.stop_sent) TR.recording = false;   // the (outermost) root has been left after the stop
     }
     else
         return;
@@ -151,6 +158,7 @@ int cmd_tree_runs(const Args& a)
         TR.from_iter = atol(f[3].c_str());
         TR.cap = atol(f[4].c_str());
         TR.t0 = std::chrono::steady_clock::now();
+        TR.evict = tt == "evict";
         std::ostringstream cap;
         auto* old = std::cout.rdbuf(cap.rdbuf());
         {
